@@ -93,7 +93,13 @@ func RefineInvoke(input RefineInput) RefineOutput {
 	// E(m, c)
 	_, code, err := service_account.DecodeMetaCode(lookupData)
 	if err != nil {
-		pvmLogger.Fatalf("refine invoke (Psi_R) decode metaCode error : %v", err)
+		// the code blob is guest-provided data: an undecodable one is BAD code, never a reason to stop the node
+		pvmLogger.Errorf("refine invoke (Psi_R) decode metaCode error : %v", err)
+		return RefineOutput{
+			WorkResult:    types.WorkExecResultBadCode,
+			ExportSegment: []types.ExportSegment{},
+			Gas:           0,
+		}
 	}
 
 	extrinsics := make([][]types.ExtrinsicSpec, len(input.WorkPackage.Items))
